@@ -485,6 +485,21 @@ func (w *world) maybeGate() {
 	}
 }
 
+// stateDriver: SetState calls concurrent with the fn-driver's SetStateRoutine / SetState.
+func (w *world) stateDriver(nops int) {
+	c := w.c
+	for i := 0; i < nops && !c.Failed(); i++ {
+		w.maybeGate()
+		st := 1 + c.S.Plan(3)
+		c.Descf("state-driver: SetState(%d)", st)
+		c.S.Count("probe:concurrent-setstate")
+		inv := c.Tick()
+		var ch <-chan struct{}
+		w.cause(0, func() { ch, _, _, _ = w.sc.SetState(st) })
+		w.addWatch(ch, "SetState", inv)
+	}
+}
+
 // observer: WaitExited calls from a bystander. The call is interrupted through
 // its context when the driver loop opens the gate that belongs to it.
 func (w *world) observer(nops int) {
@@ -653,6 +668,12 @@ func runConcurrent(c *core.Ctx) {
 	tasks = append(tasks, c.RelayActor("fn-driver", n1, w.fnStep)...)
 	if n2 > 0 {
 		tasks = append(tasks, c.RelayActor("restart-driver", n2, w.restartStep)...)
+	}
+	if w.state && c.S.PlanP(400) {
+		// a second goroutine stores states while the fn-driver installs routines
+		// and states (GetState is read back from the container, so no model is needed)
+		n4 := c.IntRange(1, 3)
+		tasks = append(tasks, c.Actor("state-driver", func() { w.stateDriver(n4) }))
 	}
 	if c.S.PlanP(500) {
 		// an observer calls WaitExited while the drivers work: it reads (and may
